@@ -62,6 +62,11 @@ func (k Keeper) Open(ctx sdk.Context, msg *types.MsgOpen) (*types.MsgOpenRespons
 
 	// check if existing mtp to consolidate
 	existingMtp := k.CheckSameAssetPosition(ctx, msg)
+	// a position of another pool cannot absorb this open: the funds borrowed for it and its custody and liabilities
+	// are booked on msg.PoolId, while the merged position would stay recorded (and later be repaid) on its own pool
+	if existingMtp != nil && existingMtp.AmmPoolId != msg.PoolId {
+		existingMtp = nil
+	}
 
 	if existingMtp == nil {
 		// opening new position
